@@ -123,8 +123,11 @@ pub async fn transfer_file_to_remote(
     let touch = mtime.map_or(String::new(), |t| format!(" && touch -d @{t} $'{escaped}'"));
     let mut child = tokio::process::Command::new("ssh")
         .arg(host)
+        // The rename is conditioned on the staged size: `cat` exits 0 on ANY end of
+        // input, also when this process dies mid-file, and a truncated upload must
+        // never be renamed over the destination.
         .arg(format!(
-            "cat > $'{tmp_escaped}' && mv -f $'{tmp_escaped}' $'{escaped}'{touch}"
+            "cat > $'{tmp_escaped}' && [ \"$(wc -c < $'{tmp_escaped}')\" -eq {file_size} ] && mv -f $'{tmp_escaped}' $'{escaped}'{touch}"
         ))
         .stdin(std::process::Stdio::piped())
         .stdout(std::process::Stdio::null())
